@@ -26,7 +26,7 @@ TRUSTED_BASE = [
     "translators: harness/C01/scrape.py (owned by C01, shared): scrape_cflags (regex scrape of compilers_flags.<cc> in cdefs.lua with tabler.updatecopy inheritance), scrape_div_guard, scrape_vardecl_policy (which emitter receives which statement of visitors.VarDecl); in checks/C09.py: the regex for `conf.pragmas.nochecks = true` under `conf.maximum_performance or conf.release` in configer.lua, the conjuncts of VarDecl's branch for dropped variables, the early return of visitors.FuncDef",
     "cross-property files: coq/C09/{CSem,Helpers,ProofsBase,ProofsDiv}.v are COPIES of coq/C03 and coq/C09/Order.v is a COPY of coq/C01/Order.v, rewritten by checks/C01.py:sync_shared during gen (coq/C09/VarDecl.v is the source copied to coq/C01); checks/C09.py imports checks/C01.py (sync_shared, write_modules) and harness/C01/{scrape,progs,vardecl}.py and runs harness/C03/ubdrv.nelua: a change there changes this check",
     "extraction: Require Extraction + ExtrOcamlBasic only; ocaml/zutil.ml + coq/C09/driver.ml",
-    "harnesses: harness/C09/isused.lua (drives the real nelua.symbol module), harness/C09/chkdrv.nelua and harness/C03/ubdrv.nelua (probes built with checks on / off), harness/C01/progs.py and vardecl.py (program generators), `nelua --verbose` for the compile command, the real compiler with gcc 12 / clang 14",
+    "harnesses: harness/C09/isused.lua (drives the real nelua.symbol module), harness/C09/chkdrv.nelua and harness/C03/ubdrv.nelua (probes built with checks on / off), harness/C09/wrapdrv.nelua (wrap-dependent idioms, 7 compiler/optimisation configurations), harness/C01/progs.py and vardecl.py (program generators), `nelua --verbose` for the compile command, the real compiler with gcc 12 / clang 14",
     "modelled rather than verified: coq/C09/CSem.v, Helpers.v (shared with C01/C03), Model.v (Symbol:is_used, emission condition, configuration flags: the selection `base; release | devel` of ccompiler.get_compiler_cflags is hard-coded in cflags_of and compared with the real command line for 2 compilers x 4 configurations on every run), VarDecl.v (two emitters), Order.v",
 ]
 ASSUMPTIONS = [
@@ -70,6 +70,7 @@ THEOREM_CLASSES = {
     "C09_vardecl_effects_partial": "corollary",       # every placement: permutation, single effect
     "C09_compiler_independent_refuted": "refutation",
     "C09_base_flags_always": "main",
+    "C09_every_gnu_compiler_wraps": "tripwire",       # scraped: effective base flags of gcc, clang, zig cc, emcc, g++, clang++
     "C09_release_config": "main",
     "C09_plain_ops_defined_with_base_flags": "main",
     "C09_fwrapv_needed": "corollary",
@@ -80,6 +81,7 @@ MANIFEST_ENTRY = {
     "technique": "Coq theorems about an executable Gallina model + generated parameters + behavioural correspondence of the extracted model; differential builds",
 }
 
+GNU_FAMILY = ["gcc", "clang", "zig cc", "emcc", "g++", "clang++"]
 FLAG_TABLE = {}
 FLAG_CODES = {"-fwrapv": 1, "-fno-strict-aliasing": 2, "-O2": 3, "-DNDEBUG": 4, "-g": 5}
 
@@ -117,6 +119,15 @@ def gen(ctx):
             lines.append("Definition %s_%s : list nat := %s.  (* %s *)" % (cc, k, enc(v), v))
     lines.append("Definition gcc_base_has_fwrapv : bool := %s." % ("true" if "-fwrapv" in fl["gcc"]["cflags_base"].split() else "false"))
     lines.append("Definition clang_base_has_fwrapv : bool := %s." % ("true" if "-fwrapv" in fl["clang"]["cflags_base"].split() else "false"))
+    # every compiler entry of the GNU family (optimises on signed overflow, understands the flag); tcc / c2m do not
+    # know the flag and do not optimise on overflow, nvcc hands other flags to its host compiler: not in the list
+    fam = [n for n in GNU_FAMILY if n in fl]
+    missing = [n for n in GNU_FAMILY if n not in fl]
+    if missing:
+        raise RuntimeError("cdefs.lua: compilers_flags entries not found: %s" % missing)
+    lines.append("(* effective cflags_base (inheritance and aliases resolved) contains -fwrapv, for: %s *)" % ", ".join(fam))
+    lines.append("Definition gnu_family_base_has_fwrapv : list bool := [%s]." % "; ".join("true" if "-fwrapv" in fl[n].get("cflags_base", "").split() else "false" for n in fam))
+    scraped["gnu_family_base_has_fwrapv"] = {n: "-fwrapv" in fl[n].get("cflags_base", "").split() for n in fam}
     lines.append("Definition release_implies_nochecks : bool := %s." % ("true" if rel_nochecks else "false"))
     guard = scrape.scrape_div_guard(vlib.repo_read("lualib/nelua/cbuiltins.lua"))
     lines.append("(* cbuiltins.nelua_idiv_/nelua_imod_: the `b == -1` line is emitted before `if checked then` *)")
@@ -524,6 +535,128 @@ def stream_checks(ctx, driver, cov):
     return len(cases) * 2, len(set(c[2] for c in cases)), [cases[0][3], cases[-1][3]]
 
 
+WRAP_CONFIGS = [("gcc", []), ("gcc --release", ["--release"]), ("gcc -O3", ["--cflags=-O3"]),
+                ("clang", ["--cc", "clang"]), ("clang --release", ["--cc", "clang", "--release"]),
+                ("clang -O1", ["--cc", "clang", "--cflags=-O1"]), ("clang -O3", ["--cc", "clang", "--cflags=-O3"])]
+WRAP_IDIOMS = ["x + 1 > x", "x - 1 < x", "a + b > a", "saturating add (after-the-fact overflow test)", "a * 2 /// 2 == a", "a * b >= a",
+               "a < 0 and -a < 0", "abs(a) >= 0", "how many of a+1, a+2, a+3 are > a"]
+
+
+def stream_wrap(ctx, driver, cov):
+    """wrap-dependent idioms (harness/C09/wrapdrv.nelua) on operands at the type limits, built by both compilers at every
+    optimisation level: every build must print what the default build prints (the property), and the default build
+    must print the wrapping result of the model (op_add / op_sub / op_mul / op_unm in the dialect of the scraped base
+    flags) wherever the model says the operation is defined"""
+    rng = ctx.rng
+    d = os.path.join(ctx.work, "wrap")
+    os.makedirs(d, exist_ok=True)
+    src = os.path.join(vlib.VERIF, "harness", ID, "wrapdrv.nelua")
+    cases = []
+    for ti, t in ((1, "i32"), (2, "i64")):
+        bits = ITY[t][0]
+        lo, hi = -(1 << (bits - 1)), (1 << (bits - 1)) - 1
+        A = [lo, lo + 1, lo + 2, lo // 2, lo // 2 - 1, -84, -2, -1, 0, 1, 2, 5, hi // 2, hi // 2 + 1, hi - 84, hi - 2, hi - 1, hi]
+        B = [lo, -84, -2, -1, 0, 1, 2, 3, 84, hi]
+        cases += [(ti, t, a, b) for a in A for b in B]
+        cases += [(ti, t, wrap_to(t, rng.getrandbits(64)), wrap_to(t, rng.getrandbits(rng.choice([3, 16, 64])))) for _ in range(ctx.scale(60, 1500))]
+
+    def build(cfg):
+        name, extra = cfg
+        out = os.path.join(d, "wrap-" + name.replace(" ", "").replace("-", "_"))
+        rc, o, e = vlib.nelua(["--no-cache", "--cache-dir", out + ".cache", "-b", "-o", out] + extra + [src], timeout=600)
+        return name, rc, out, (o + e)[-600:]
+    with cf.ThreadPoolExecutor(max_workers=4) as ex:
+        built = list(ex.map(build, WRAP_CONFIGS))
+    itext = "\n".join("%d %d %d" % (ti, a, b) for ti, t, a, b in cases) + "\n"
+    outs = {}
+    for name, rc, out, log in built:
+        if rc != 0:
+            ctx.violation("harness-run:wrap:%s" % name, "harness", "wrap probe does not build (%s): %s" % (name, log), failing_input=False)
+            continue
+        r = vlib.sh([out], input=itext, timeout=120)
+        if r[0] != 0:
+            ctx.violation("wrap-run:%s" % name, "oracle", "wrap probe built with `%s` exits with %s: %s" % (name, r[0], r[2][-200:]))
+            continue
+        outs[name] = [x.split("\t") for x in r[1].split("\n")]
+    base = outs.get("gcc")
+    n_diff = n_mm = n_undef = 0
+    if base and len(base) >= len(cases):
+        # 1. the property: no configuration changes the output
+        for name, lines in outs.items():
+            if name == "gcc":
+                continue
+            for k, c in enumerate(cases):
+                if k >= len(lines) or lines[k] != base[k]:
+                    n_diff += 1
+                    if n_diff <= 4:
+                        got = lines[k] if k < len(lines) else []
+                        j = next((i for i in range(len(WRAP_IDIOMS)) if i >= len(got) or i >= len(base[k]) or got[i] != base[k][i]), 0)
+                        ctx.violation("wrap:%s:%s %d %d" % (name, c[1], c[2], c[3]), "oracle",
+                                      "`%s` on %s operands a = %d, b = %d: the build `%s` gives %s, the default build %s" %
+                                      (WRAP_IDIOMS[j], c[1], c[2], c[3], name, got[j] if j < len(got) else None, base[k][j] if j < len(base[k]) else None),
+                                      detail={"probe": "harness/C09/wrapdrv.nelua", "input_line": "%d %d %d" % (c[0], c[2], c[3]), "default": base[k], "other": got,
+                                              "replay": "echo '%d %d %d' | <harness/C09/wrapdrv.nelua built with %s>  vs  <built with no option>" % (c[0], c[2], c[3], name)})
+        # 2. the default build against the model's wrapping semantics
+        q = []
+        for ti, t, a, b in cases:
+            q += ["arith add %s %s 1" % (t, hexs(a)), "arith sub %s %s 1" % (t, hexs(a)), "arith add %s %s %s" % (t, hexs(a), hexs(b)),
+                  "arith mul %s %s 2" % (t, hexs(a)), "arith mul %s %s %s" % (t, hexs(a), hexs(b)), "arith unm %s %s 0" % (t, hexs(a))]
+        rc, mo, me = vlib.sh([driver], input="\n".join(q) + "\n", timeout=300)
+        ml = mo.split("\n")
+        tf = lambda x: "true" if x else "false"
+
+        def val(m):
+            return None if not m.startswith("v:") else (-int(m[3:], 16) if m[2] == "-" else int(m[2:], 16))
+        extra_q, slots = [], []
+        pre = []
+        for k, (ti, t, a, b) in enumerate(cases):
+            inc, dec, ab, dbl, mul, neg = [val(m) for m in ml[6 * k:6 * k + 6]]
+            pre.append((inc, dec, ab, dbl, mul, neg))
+            # second round: a*2 /// 2, and the chain a+1, a+2, a+3
+            if dbl is not None:
+                extra_q.append("arith tdiv %s %s 2" % (t, hexs(dbl)))
+                slots.append((k, "half"))
+        rc, mo2, me2 = vlib.sh([driver], input="\n".join(extra_q) + "\n", timeout=300) if extra_q else (0, "", "")
+        half = {}
+        for (k, _), m in zip(slots, mo2.split("\n")):
+            half[k] = val(m)
+        for k, (ti, t, a, b) in enumerate(cases):
+            bits = ITY[t][0]
+            lo, hi = -(1 << (bits - 1)), (1 << (bits - 1)) - 1
+            inc, dec, ab, dbl, mul, neg = pre[k]
+            exp = [None] * 9
+            if inc is not None:
+                exp[0] = tf(inc > a)
+            if dec is not None:
+                exp[1] = tf(dec < a)
+            if ab is not None:
+                exp[2] = tf(ab > a)
+                exp[3] = str(hi if (b > 0 and ab < a) else lo if (b < 0 and ab > a) else ab)
+            if dbl is not None and half.get(k) is not None:
+                exp[4] = tf(half[k] == a)
+            if mul is not None:
+                exp[5] = tf(mul >= a)
+            if neg is not None:
+                exp[6] = tf(a < 0 and neg < 0)
+                exp[7] = tf((neg if a < 0 else a) >= 0)
+            if inc is not None and a + 3 <= hi:
+                exp[8] = "3"        # no wrap within three increments (the wrapping chains are compared differentially only)
+            for j, e in enumerate(exp):
+                if e is None:
+                    n_undef += 1
+                elif j < len(base[k]) and base[k][j] != e:
+                    n_mm += 1
+                    if n_mm <= 3:
+                        ctx.violation("model-mismatch:wrap", "correspondence",
+                                      "`%s` on %s operands a = %d, b = %d: the default build gives %s, the model's wrapping semantics %s" % (WRAP_IDIOMS[j], t, a, b, base[k][j], e),
+                                      detail={"no_longer_checks": "correspondence stream C09/wrap"}, failing_input=False)
+    elif base is not None:
+        ctx.violation("harness-run:wrap-output", "harness", "wrap probe printed %d lines for %d cases" % (len(base), len(cases)), failing_input=False)
+    cov["wrap"] = {"cases": len(cases), "configurations": [n for n in outs], "idioms": WRAP_IDIOMS, "differences_between_configurations": n_diff,
+                   "model_mismatches": n_mm, "values_the_model_leaves_undefined": n_undef}
+    return len(cases) * len(outs), len(set(cases)), ["%s %d %d" % c[1:] for c in cases[:2]]
+
+
 CFLAG_CONFIGS = [("default", []), ("release", ["--release"]), ("nochecks", ["-P", "nochecks"]), ("nodce", ["-P", "nodce"])]
 
 
@@ -658,7 +791,8 @@ def correspond(ctx):
     n2 += stream_witness_builds(ctx, cov)
     n3, d3, s3 = stream_checks(ctx, driver, cov)
     n4, d4, s4 = stream_vardecl(ctx, driver, cov)
-    n2, d2, s2 = n2 + n3 + n4 + stream_cflags(ctx, driver, cov), d2 + d3 + d4, s2 + s3 + s4
+    n5, d5, s5 = stream_wrap(ctx, driver, cov)
+    n2, d2, s2 = n2 + n3 + n4 + n5 + stream_cflags(ctx, driver, cov), d2 + d3 + d4 + d5, s2 + s3 + s4 + s5
     return {
         "evaluations": n1 + n2,
         "distinct_nontrivial": d1 + d2,
